@@ -228,7 +228,7 @@ func (g *genState) paramValue(i int, name string) Arg {
 	case "todo":
 		ch := Chunk{Kind: "todo"}
 		if src.Bool("todomsg") {
-			ch.HasDef, ch.Def = true, choice.Pick(src, "todomsgv", []string{"in development", "not implemented (yet)", "a, b (c)", "see docs) then (retry", "quota reached: 90%", "%d items %s"})
+			ch.HasDef, ch.Def = true, choice.Pick(src, "todomsgv", []string{"in development", "not implemented (yet)", "a, b (c)", "see docs) then (retry", "quota reached: 90%", "%d items %s", ""})
 		}
 		return Arg{Kind: "pattern", Chunks: []Chunk{ch}}
 	case "fn":
@@ -359,6 +359,10 @@ func (g *genState) service(name string, i int) Svc {
 			if full.Fields[k].Name == "Name" {
 				full.Fields[k].V.S = name
 			}
+		}
+		// a placeholder may keep a sketch that refers to things not declared (yet): it is skipped by validation
+		if src.Chance("stodosketch", 1, 2) {
+			full.Args = append(full.Args, Arg{Kind: "svc", S: "not.declared.yet"}, Arg{Kind: "pattern", Chunks: []Chunk{{Kind: "ref", S: "not.declared.either"}}})
 		}
 		// a placeholder may keep its getter, even one that another service uses too: it is not generated
 		if full.Getter == "" && src.Bool("stodogetter") {
